@@ -128,6 +128,7 @@ type FnCtx struct {
 	defers        []*ssa.Defer
 	strlits       map[string]string
 	knownHeaps    map[string]string // from a previous pass: declare all at entry
+	knownLocals   map[string]string
 	cur           heapState
 	curBlock      *ssa.BasicBlock
 	names         map[string]bool
@@ -152,6 +153,8 @@ type FnCtx struct {
 	houdiniObs    []*houdiniOb
 	pendingHavoc  []string
 	finalized     bool
+	extraGuard    string
+	deferFlags    []string
 	curBindings   []ssa.Value
 	curCallee     *ssa.Function
 	strConsts     map[string]bool
@@ -1034,7 +1037,13 @@ func (c *FnCtx) translate() {
 		c.heapDecl(n, c.knownHeaps[n])
 	}
 	c.heapDecl("ALLOC", "Int")
-	c.assume(le("1000", c.entry["ALLOC"])) // references below 1000 are package-level variables
+	c.assume(le("1000", c.entry["ALLOC"]))
+	for h, srt := range c.knownLocals {
+		if strings.HasPrefix(h, "L_defer") && srt == "Bool" {
+			c.heapDecl(h, "Bool")
+			c.assume(not(c.entry[h]))
+		}
+	} // references below 1000 are package-level variables
 	// parameters and free variables
 	for i, p := range fn.Params {
 		c.freshVal(p)
